@@ -88,7 +88,7 @@ def fold_verdicts(m: Model):
                     flag |= Flag.FINISHED
                 if prem:
                     flag |= Flag.PREMATURE
-                tab = Obj('tableau', flag=flag, argument=arg, open=[object()] * nopen)
+                tab = Obj('tableau', __srcclass__=(m, ClassRef(TAB, 'Tableau')), flag=flag, argument=arg, open=[object()] * nopen)
                 for n in ('finished', 'completed', 'premature'):
                     setattr(tab, n, it.safe(getters[n], [tab]))
                 valid = it.safe(getters['valid'], [tab])
@@ -118,7 +118,7 @@ def fold_max_steps(m: Model):
             flag = Flag.HAS_STEP_LIMIT if has else Flag(0)
             for nopen in (0, 2):
                 # the limit must not depend on anything but the flag and the number of recorded steps
-                tab = Obj('tableau', flag=flag, history=[0] * steps, opts={'max_steps': mx}, open=[object()] * nopen,
+                tab = Obj('tableau', __srcclass__=(m, ClassRef(TAB, 'Tableau')), flag=flag, history=[0] * steps, opts={'max_steps': mx}, open=[object()] * nopen,
                           argument='ARG', rules=[], timers=None)
                 r = it.safe(fn, [tab])
                 got = r if not isinstance(r, bool) else r
@@ -146,7 +146,7 @@ class _CM:
 
 
 def _mk_tab(m, Flag, flags, log):
-    tab = Obj('tableau', flag=flags, opts={'is_build_models': True, 'build_timeout': 10}, logic='LOGIC', models=frozenset())
+    tab = Obj('tableau', __srcclass__=(m, ClassRef(TAB, 'Tableau')), flag=flags, opts={'is_build_models': True, 'build_timeout': 10}, logic='LOGIC', models=frozenset())
     tab.timers = Obj('timers', build=_CM(), models=_CM(), tree=_CM(), trunk=_CM())
     return tab
 
@@ -237,7 +237,7 @@ def fold_check_timeout(m: Model):
         for elapsed in (5, 10, 11):
             log = []
             flags = Flag.HAS_TIME_LIMIT if has_limit else Flag(0)
-            tab = Obj('tableau', flag=flags, opts={'build_timeout': 10})
+            tab = Obj('tableau', __srcclass__=(m, ClassRef(TAB, 'Tableau')), flag=flags, opts={'build_timeout': 10})
             tab.timers = Obj('timers', build=Obj('sw', elapsed_ms=lambda: elapsed))
             tab.finish = lambda: log.append(('finish', Flag.TIMED_OUT in tab.flag))
             it = Interp(dict(Emsg=Obj('Emsg', Timeout=lambda *a: 'ProofTimeoutError')), where='proof/tableaux.py Tableau._check_timeout')
@@ -260,7 +260,7 @@ def fold_next(m: Model):
     branches, groups = ['b0', 'b1'], ['g0', 'g1', 'g2']
     for hit in [None] + [(b, g) for b in branches for g in groups]:
         log = []
-        tab = Obj('tableau', open=list(branches), rules=Obj('rules', groups=list(groups)))
+        tab = Obj('tableau', __srcclass__=(m, ClassRef(TAB, 'Tableau')), open=list(branches), rules=Obj('rules', groups=list(groups)))
         tab._get_group_application = lambda b, g: (log.append((b, g)), 'ENTRY' if hit is not None and (b, g) >= hit else None)[1]
         it = Interp({}, where='proof/tableaux.py Tableau.next')
         r = it.safe(fn, [tab])
